@@ -1,14 +1,12 @@
 from __future__ import annotations
 
-from typing import TYPE_CHECKING, Any, cast
+from typing import TYPE_CHECKING, Any
 
 import numpy as np
 
 from quansino.operations.core import BaseOperation
 
 if TYPE_CHECKING:
-    from ase.atoms import Atoms
-
     from quansino.mc.contexts import DisplacementContext
     from quansino.type_hints import Displacement
 
@@ -179,9 +177,11 @@ class Rotation(BaseOperation):
     """
     Class for a rotation operation.
 
-    This operation rotates the selected atoms around their center of mass using
-    randomly generated Euler angles. The rotation is performed around the
-    center of mass of the selected atoms.
+    This operation rotates the selected atoms around their center of mass by a
+    uniformly distributed random rotation, built from a random unit quaternion
+    (four normal deviates drawn from the context's random number generator). The
+    distribution is invariant under inversion, so a rotation and its inverse are
+    proposed with the same probability.
 
     Returns
     -------
@@ -192,11 +192,37 @@ class Rotation(BaseOperation):
     def calculate(self, context: DisplacementContext) -> Displacement:
         atoms = context.atoms
 
-        molecule = cast("Atoms", atoms[context._moving_indices])
-        phi, theta, psi = context.rng.uniform(0, 2 * np.pi, 3)
-        molecule.euler_rotate(phi, theta, psi, center="COM")  # type: ignore
+        positions = atoms.positions[context._moving_indices]
+        masses = atoms.get_masses()[context._moving_indices]
+        center_of_mass = masses @ positions / masses.sum()
 
-        return molecule.positions - context.atoms.positions[context._moving_indices]
+        w, x, y, z = context.rng.standard_normal(4)
+        norm = w * w + x * x + y * y + z * z
+
+        rotation = (
+            np.array(
+                [
+                    [
+                        w * w + x * x - y * y - z * z,
+                        2 * (x * y - w * z),
+                        2 * (x * z + w * y),
+                    ],
+                    [
+                        2 * (x * y + w * z),
+                        w * w - x * x + y * y - z * z,
+                        2 * (y * z - w * x),
+                    ],
+                    [
+                        2 * (x * z - w * y),
+                        2 * (y * z + w * x),
+                        w * w - x * x - y * y + z * z,
+                    ],
+                ]
+            )
+            / norm
+        )
+
+        return (positions - center_of_mass) @ rotation.T + center_of_mass - positions
 
 
 class TranslationRotation(BaseOperation):
